@@ -5,6 +5,7 @@ nop placement, S1 hash schedule.  Fault: an inapplicable member injected.  Oracl
 the reference interpreter."""
 import itertools
 
+from sim import fs
 from sim.engine import Violation, Skip
 from ref import interp, sexpr, pddl_reader
 from gen import pddl as G
@@ -305,6 +306,41 @@ def inject(ctx, W, S, members, agents, d, p, s0, ops):
     calls = [ActionCall(name=a, grounded_parameters=list(args)) for a, args in lst]
     ctx.faults["inapplicable_member_injected"] += 1
     ctx.probes[f"inject_into_{len(members)}"] += 1
+    # the same refusal through an exporter with a history: a lenient parse_plan call that failed on its plan file
+    from pddl_plus_parser.multi_agent import MultiAgentTrajectoryExporter
+    import errno
+    exp = MultiAgentTrajectoryExporter(d)
+    slots_b = [None] * len(agents)
+    for m in lst:
+        slots_b[agents.index(agent_of(m, agents))] = m
+    js_bad = joint_string(slots_b)
+    if ops.chance(1, 2):
+        planf = C.put(ctx, "lenient.plan", js_bad + "\n")
+        fs.arm_read(["open", "read"][ops.draw(2)], OSError(errno.EIO, "sim"))
+        try:
+            exp.parse_plan(p, plan_path=planf, allow_inapplicable_actions=True)
+        except OSError:
+            ctx.faults["lenient_plan_read_fault"] += 1
+        except Exception:
+            pass
+        fs.disarm()
+    elif ops.chance(1, 2):
+        try:
+            exp.parse_plan(p, action_sequence=[js_bad], allow_inapplicable_actions=True)
+            ctx.probes["lenient_plan_before_strict"] += 1
+        except Exception:
+            pass
+    try:
+        exp.create_multi_agent_triplet(s0, js_bad, p.objects)
+    except ValueError:
+        ctx.probes["joint_refused_by_exporter"] += 1
+    except Exception as e:
+        raise Violation("C16/refusal-wrong-exception", "create_multi_agent_triplet",
+                        f"{js_bad}: {type(e).__name__}: {e}")
+    else:
+        raise Violation("C16/inapplicable-member-applied", "create_multi_agent_triplet",
+                        f"member {C.fmt_call(*bad)} is inapplicable (reference) but {js_bad} was applied by an exporter "
+                        f"whose earlier lenient call had ended", {"n_members": len(calls)})
     try:
         apply_actions(d, s0, calls, problem_objects=p.objects)
     except ValueError:
